@@ -1,6 +1,6 @@
 package main
 
-// Engine "flood" (oracle only; serves C08, C20, C01): bursts of inbound queries delivered back to
+// Engine "flood" (oracle only; serves C08, C20, C01, C12, C10, C11): bursts of inbound queries delivered back to
 // back — replies overlap in time, unlike in the event-by-event server engine — under timed send
 // limiters with WaitToReply on and off. Checked directly on the implementation:
 //   C08  every reply goes to the source of the query whose transaction id it echoes, carries that
@@ -8,6 +8,8 @@ package main
 //   C20  the datagrams written in any window never exceed burst + rate * window (one-sided, real time),
 //        with WaitToReply off excess replies are dropped, with it on they are delayed, never sent early;
 //   C01  the node survives and still serves.
+// Case kinds "tokens" (C10) and "peers" (C11) (flood_writes.go): the CONTENT of overlapping replies - every host
+// can write with the token its reply carried and nobody else can; values are those of the queried infohash.
 // Case kinds "recover", "recover-faults", "recover-outbound", "exact" (flood_recover.go) add the lower
 // bound of C08: after an over-budget burst (with refused, failed, blocked and cancelled sends) and
 // a measured quiet time, queries sent while the budget provably holds a token are each answered.
@@ -41,9 +43,19 @@ type floodCfg struct {
 	burst  int
 	n      int
 	method string
+	// kinds "tokens" / "peers" (flood_writes.go)
+	sched  string // how the burst is made to overlap: inject | queue | oneproc | multi
+	store  string // ps | ps+hook | hook | none
+	rounds int
 }
 
 func floodCases(tier string) []floodCfg {
+	// what replies carry when they are put together at the same time (flood_writes.go): a C10 / C11 run
+	// executes these cases only, the other runs get a small one of each after their own cases
+	writes, only := floodWriteCases(tier)
+	if only {
+		return writes
+	}
 	var cs []floodCfg
 	for _, w := range []bool{false, true} {
 		for _, lim := range [][2]float64{{-1, 1}, {200, 1}, {400, 3}, {1000, 8}, {100, 20}} {
@@ -62,6 +74,7 @@ func floodCases(tier string) []floodCfg {
 	cs = append(cs, floodCfg{kind: "torn", rate: -1, burst: 1, n: 40, method: "get-put"})
 	// the lower bound of the send budget: replies resume once the budget allows them (flood_recover.go)
 	cs = append(cs, floodRecoverCases(tier)...)
+	cs = append(cs, writes...)
 	return cs
 }
 
@@ -106,6 +119,12 @@ func runFloodCase(seed uint64, idx int, fc floodCfg) {
 		return
 	case "recover", "recover-faults", "recover-outbound", "exact":
 		runFloodRecover(seed, idx, fc)
+		return
+	case "tokens":
+		runFloodTokens(seed, idx, fc)
+		return
+	case "peers":
+		runFloodPeers(seed, idx, fc)
 		return
 	}
 	r := (&rng{s: seed ^ 0xf100d}).sub(idx)
@@ -353,7 +372,9 @@ func (h *delayHandler) Handle(r log.Record) {
 	}
 }
 
-func containsStr(s, sub string) bool { return len(sub) > 0 && len(s) >= len(sub) && (indexStr(s, sub) >= 0) }
+func containsStr(s, sub string) bool {
+	return len(sub) > 0 && len(s) >= len(sub) && (indexStr(s, sub) >= 0)
+}
 func indexStr(s, sub string) int {
 	for i := 0; i+len(sub) <= len(s); i++ {
 		if s[i:i+len(sub)] == sub {
